@@ -15,7 +15,7 @@ from . import evo
 PROP = "C13"
 LEVEL = "exploration"
 BUDGET = {"quick": 300, "thorough": 1700}
-NCASES = {"quick": 450, "thorough": 9000}
+NCASES = {"quick": 900, "thorough": 12000}
 RULE = ("generated packages delivered as notebook-style cells in a random global order (callers before callees allowed), then "
         "2-8 in-process events (redefinition of one unit, rebind / in-place mutation of a tracked variable, call-edge edits, "
         "memento<->plain swaps, explicit-version bumps, salt changes), with clone / unregistered-wrapper creation and version "
